@@ -400,6 +400,21 @@ func (c *checker) reads(in *inst, s mstate, path []op) (digest string) {
 				c.viol("decoded-timestamp", path, "index %d (%s)", i, e.name)
 			}
 		}
+		// independently of the library: the stored leaf is the RFC 6962 entry of this submission
+		// (a client that derives the entry itself must arrive at the stored leaf's hash)
+		if ml, perr := ct6962.ParseMerkleTreeLeaf(leafVals[i]); perr != nil {
+			c.viol("stored-leaf-not-rfc6962", path, "index %d (%s): %v", i, e.name, perr)
+		} else if e.pre {
+			fin := e.full[1]
+			if len(e.full) > 2 && fin == preIss {
+				fin = e.full[2] // signed by a precertificate signing certificate: the final issuer is the next one
+			}
+			if ml.Entry.EntryType != 1 || ml.Entry.IssuerKeyHash != fin.T.Key.KeyHash() {
+				c.viol("stored-precert-entry-issuer-key-hash", path, "index %d (%s): entry type %d, issuer_key_hash %x, the final issuer's key hash is %x", i, e.name, ml.Entry.EntryType, ml.Entry.IssuerKeyHash, fin.T.Key.KeyHash())
+			}
+		} else if ml.Entry.EntryType != 0 || !bytes.Equal(ml.Entry.Cert, e.full[0].DER) {
+			c.viol("stored-x509-entry-differs", path, "index %d (%s)", i, e.name)
+		}
 		// the hash a client computes from the certificate chain and the SCT alone
 		sctr := in.scts[s.seq[i]]
 		var clientHash [32]byte
